@@ -96,6 +96,9 @@ func (ex *Exec) arrFieldRef(obj *Term, region string) *Term {
 func (ex *Exec) allocRef(hint string) *Term {
 	st := ex.st
 	st.na = ex.ts.Add(st.na, ex.ts.Int(1))
+	if st.fresh != nil {
+		st.fresh[st.na] = true
+	}
 	return st.na
 }
 
